@@ -1,6 +1,7 @@
 package c02
 
 import (
+	"bytes"
 	"fmt"
 	"regexp"
 	"sort"
@@ -30,6 +31,8 @@ type piece struct {
 	Text  vt.B   `json:"text,omitempty"`  // literal bytes, or the variable name
 	Quote string `json:"quote,omitempty"` // lit only: bare | full | split
 	Cut   int    `json:"cut,omitempty"`   // split position for "split"
+	// Rep > 1: the literal is Text repeated Rep times (words and lines beyond 64 KiB without huge replay files)
+	Rep int `json:"rep,omitempty"`
 }
 
 type word []piece
@@ -163,8 +166,30 @@ var ranA, skippedA int64
 
 func checkA(c caseA) *vt.Fail {
 	skippedA++
-	f := checkA1(c)
+	f := checkA1(expandReps(c))
 	return f
+}
+
+// expandReps replaces repeated literals by their full text.
+func expandReps(c caseA) caseA {
+	out := caseA{Setup: c.Setup}
+	for _, st := range c.Steps {
+		st2 := st
+		st2.Words = nil
+		for _, w := range st.Words {
+			var w2 word
+			for _, p := range w {
+				if p.Kind == "lit" && p.Rep > 1 && p.Rep <= 200000 && len(p.Text)*p.Rep <= 300000 {
+					p.Text = vt.B(bytes.Repeat(p.Text, p.Rep))
+					p.Rep = 0
+				}
+				w2 = append(w2, p)
+			}
+			st2.Words = append(st2.Words, w2)
+		}
+		out.Steps = append(out.Steps, st2)
+	}
+	return out
 }
 
 func checkA1(c caseA) *vt.Fail {
@@ -492,7 +517,12 @@ func genWord(t *rapid.T, names []string) word {
 	for i := 0; i < n; i++ {
 		switch k := rapid.IntRange(0, 9).Draw(t, "pkind"); {
 		case k <= 4:
-			w = append(w, piece{Kind: "lit", Text: genValue(t, "lit"), Quote: rapid.SampledFrom([]string{"bare", "full", "split"}).Draw(t, "quote"), Cut: rapid.IntRange(0, 50).Draw(t, "cut")})
+			p := piece{Kind: "lit", Text: genValue(t, "lit"), Quote: rapid.SampledFrom([]string{"bare", "full", "split"}).Draw(t, "quote"), Cut: rapid.IntRange(0, 50).Draw(t, "cut")}
+			if rapid.IntRange(0, 59).Draw(t, "long") == 41 && len(p.Text) > 0 {
+				// a word longer than 4 KiB / 64 KiB
+				p.Rep = rapid.SampledFrom([]int{4100, 65536, 70000}).Draw(t, "longlen")/len(p.Text) + 1
+			}
+			w = append(w, p)
 		case k <= 6:
 			w = append(w, piece{Kind: "var", Text: vt.B(rapid.SampledFrom(namePool).Draw(t, "vname"))})
 		case k == 7:
